@@ -1,6 +1,7 @@
 package main
 
 import (
+	"strings"
 	"fmt"
 	"go/types"
 )
@@ -303,6 +304,18 @@ func (e *Engine) mergeVal(g string, a, b Val, sa, sb *State, what string) Val {
 				return PtrV{Nil: nilT, Cell: y.Cell, Elem: y.Elem, Name: y.Name, Cands: y.Cands}
 			case y.Nil == "true":
 				return PtrV{Nil: nilT, Cell: x.Cell, Elem: x.Elem, Name: x.Name, Cands: x.Cands}
+			case e.cfg.Effects && e.mergeOut != nil && e.freshMergeDepth == 0 && types.Identical(x.Elem, y.Elem) && e.freshResultPtr(x, sa) && e.freshResultPtr(y, sb) && isStructType(x.Elem):
+				// two symbolic objects that nothing has looked into yet (results of two calls in two branches): one new
+				// object whose fields are the conditional of theirs (captures of the results keep the objects as returned)
+				e.freshMerges++
+				stt := x.Elem.Underlying().(*types.Struct)
+				c := e.newCell(x.Elem, x.Name+"|"+y.Name)
+				ca := StructV{Typ: stt, F: make([]Val, stt.NumFields()), Sym: x.Name}
+				cb := StructV{Typ: stt, F: make([]Val, stt.NumFields()), Sym: y.Name}
+				e.freshMergeDepth++ // pointers inside the two objects are not merged this way (lazily symbolic objects are infinite trees)
+				e.mergeOut.cells[c] = e.mergeVal(g, ca, cb, sa, sb, what)
+				e.freshMergeDepth--
+				return PtrV{Nil: nilT, Cell: c, Elem: x.Elem, Name: c.Name}
 			case x.Cell != nil && y.Cell != nil && e.mergeOut != nil && types.Identical(x.Elem, y.Elem):
 				// two different objects: merge them into one object (sound when neither is referenced elsewhere,
 				// which holds for the `opts = &T{...}` idiom; counted as an assumption)
@@ -405,4 +418,29 @@ func isNilPtrVal(v Val) bool {
 		return o.T == "nilU"
 	}
 	return false
+}
+
+func isStructType(t types.Type) bool {
+	_, ok := t.Underlying().(*types.Struct)
+	return ok
+}
+
+// freshResultPtr: a symbolic pointer (result of a havocked or interface call, or an input) whose object has not been
+// materialised in the given state: its contents are still exactly the lazily symbolic fields named after it.
+func (e *Engine) freshResultPtr(p PtrV, st *State) bool {
+	if p.Cell != nil || p.Name == "" || p.Name == "nilptr" || p.Name == "snap" || strings.HasPrefix(p.Name, "mergedptr!") || len(p.Cands) > 0 || p.Nil == "true" {
+		return false
+	}
+	if c := e.ptrCell[p.Name]; c != nil {
+		if _, ok := st.cells[c]; ok {
+			return false
+		}
+		if _, ok := e.inputCells[c]; ok {
+			return false
+		}
+	}
+	if _, boxed := e.boxedTerm[p.Name]; boxed {
+		return false
+	}
+	return true
 }
